@@ -131,11 +131,11 @@ PROPS = {
     },
     "C03": {
         "props_file": "Props/C03.v",
-        "run_files": ["Run/CaseConn.v", "Run/CaseIp.v"],
+        "run_files": ["Run/CaseConn.v", "Run/CaseIp.v", "Run/CaseLocale.v"],
         "imports": ["Lib.Bytes", "Codec.Desc", "Conn.Types", "Conn.Prog", "Conn.Sem1", "Run.CaseConn"],
         "case_type": "conn_case",
         "checkers": {"BASE": "check_c03", "C03": "check_c03"},
-        "harness": [{"bin": "conn", "env": {"VERIF_FAMILIES": "BASE,C03"}}, {"bin": "iptext", "case_type": "ipcase", "imports": ["Lib.Bytes", "Lib.IpText", "Run.CaseIp"], "checkers": {"SHOW": "check_ip", "PARSE": "check_ip", "SOCK": "check_ip"}, "shard": 300}],
+        "harness": [{"bin": "conn", "env": {"VERIF_FAMILIES": "BASE,C03"}}, {"bin": "iptext", "case_type": "ipcase", "imports": ["Lib.Bytes", "Lib.IpText", "Run.CaseIp"], "checkers": {"SHOW": "check_ip", "PARSE": "check_ip", "SOCK": "check_ip"}, "shard": 300}, {"bin": "locale", "case_type": "loccase", "imports": ["Lib.Bytes", "Adapters.Locale", "Run.CaseLocale"], "checkers": {"LOC": "check_locale"}, "shard": 60}],
         "shard": 40,
         "quick_scale": 1, "thorough_scale": 8, "search_factor": 4,
         "ties": ["conn binary: real Connection::listen on a scripted transport/client/adapters in a paused runtime vs Conn.Sem1.run1 (sends, calls, outcome, virtual ms)",
